@@ -1048,7 +1048,13 @@ def run_c09(case):
     """one connective over predicates. case: {'kb','facts','n_consts','op_fact': (g, lo, hi) | None}
     upward(), table dump; then (optionally) assert the operator at one join tuple and downward()."""
     prog = {"kb": case["kb"], "facts": case["facts"], "ops": [("up", case["conn"])]}
-    if case.get("op_fact"):
+    if case.get("variant") == "downfirst":
+        # the downward step is the first call ever made on the connective (it has no row yet)
+        prog["ops"] = [("down", case["conn"], None)]
+    elif case.get("variant") == "late":
+        # facts of further groundings arrive between the upward and the downward call
+        prog["ops"] = [("up", case["conn"])] + [("fact", f[0], f[1], f[2], f[3]) for f in case["late"]] + [("down", case["conn"], None)]
+    elif case.get("op_fact"):
         g, lo, hi = case["op_fact"]
         prog["ops"] += [("fact", case["conn"], g, lo, hi), ("down", case["conn"], None)]
     rec = run_fol_program(prog)
